@@ -154,7 +154,8 @@ def run_trajectories(entries_json, seeds):
         hists += [[[a, "r"]] for a in base] + [[[a, "r"], [b, "r"]] for a in base for b in base]
         ctx.seam.uninstall()
         try:
-            for seed in seeds:
+            life = list(seeds) + list(seeds)[:2]          # e.g. 0,1,2,0,1: the same seed again later in the env's life
+            for pos, seed in enumerate(life):
                 h = hashlib.sha1()
                 np.random.seed(seed)
                 n_chance = 0
@@ -166,7 +167,11 @@ def run_trajectories(entries_json, seeds):
                         h.update(repr((float(r), bool(d), bool(t), sorted(_info_canon(info).items()))).encode())
                         if ctx.mactions[a_idx] and 0.0 < ctx.mactions[a_idx]["prob"] < 1.0:
                             n_chance += 1
-                out[f"{ej['spec'].get('name')}|{binding}|seed{seed}"] = [h.hexdigest(), n_chance]
+                k = f"{ej['spec'].get('name')}|{binding}|seed{seed}"
+                if k in out and out[k][0] != h.hexdigest():
+                    out[k] = ["differs-within-one-environment:" + out[k][0] + "/" + h.hexdigest(), n_chance]
+                elif k not in out:
+                    out[k] = [h.hexdigest(), n_chance]
         finally:
             ctx.seam.install()
     return out
@@ -259,6 +264,11 @@ def run(pid, tier):
     alphabet = []
     for n in (["tiny-gen", "small-gen"] if tier == "quick" else ["tiny-gen", "small-gen", "small-gen-rgoal", "medium-gen"]):
         alphabet.append([(n, 1), (n, 2), (n, None)])
+    # histories that mix DIFFERENT benchmarks (state shared through module-level constants / parameter dicts)
+    alphabet.append([("tiny-gen", 1), ("small-gen", 1), ("medium-gen", 1)])
+    alphabet.append([("tiny-gen-rgoal", 0), ("small-gen-rgoal", 1), ("small-gen", None)])
+    if tier == "thorough":
+        alphabet.append([("tiny-gen", 0), ("large-gen", 0), ("pocp-1-gen", 0)])
     histories = []
     for alpha in alphabet:
         for L in (1, 2, 3):
@@ -296,7 +306,10 @@ def run(pid, tier):
     n_chance = 0
     for k, (h, nc) in first.items():
         n_chance += nc
-        if second.get(k, [None])[0] != h or fresh.get(k, [None])[0] != h:
+        if h.startswith("differs-within-one-environment"):
+            violations.append({"property": "C14", "kind": "seeded_trajectory_differs_when_repeated_later_on_the_same_environment",
+                               "engine": "trajectories", "case": k, "detail": {"hashes": h}})
+        elif second.get(k, [None])[0] != h or fresh.get(k, [None])[0] != h:
             violations.append({"property": "C14", "kind": "seeded_trajectory_not_reproducible",
                                "engine": "trajectories", "case": k,
                                "detail": {"same_process_repeat_equal": second.get(k, [None])[0] == h,
